@@ -122,7 +122,10 @@ Record snap := {
       (* per core: read coroutine active, write coroutine active, keys of rlockSems, keys of lockSems *)
   sn_l3 : list (line * data);                      (* 8.0: the shared L3 *)
   sn_l3dirty : list line;                          (* 8.0: L3 lines marked pending write (msi.l3Write) *)
-  sn_mem : list (line * data)                      (* main memory, per L1-sized line mentioned anywhere *)
+  sn_mem : list (line * data);                     (* main memory, per L1-sized line mentioned anywhere *)
+  sn_l3cap : Z;                                    (* 8.0: capacity of L3 in lines (0: no L3); Msi/L3Invariant.v *)
+  sn_ref : list (line * data)                      (* rig only: per L1-sized line written so far, the bytes the
+                                                      completed writes left (data-value reference); Msi/L3Invariant.v *)
 }.
 
 Definition pair_eqb (a b : nat * line) : bool := Nat.eqb (fst a) (fst b) && Z.eqb (snd a) (snd b).
@@ -300,6 +303,7 @@ Inductive flush_mark :=
 | FM_own_read (i : nat) (k : line)    (* a read of a Modified line vanished with the write counter still held *)
 | FM_l3_double_victim (k : line)      (* 8.0: two cores hold an L3 eviction command for the same L3 line *)
 | FM_l3_stale (k : line)              (* 8.0: an L3 line that is not marked dirty differs from main memory *)
+| FM_l3_evict_dirty (k : line)        (* 8.0: an l3Evict command (no write-back) is outstanding for an L3 line marked dirty *)
 | FM_orphan_cmd (j : nat) (k : line). (* a command for (j, k) is outstanding although no other core is inside a
                                          transaction on k and j is not inside a transaction on another line
                                          (the snapshot form of the negation of J): its requester was flushed *)
@@ -332,8 +336,14 @@ Definition l3_stale_lines (b : snap) : list flush_mark :=
     if negb (mem_line a (sn_l3dirty b)) && negb (data_eqb d (mem_under_l3 b a)) then [FM_l3_stale a] else [] end)
     (sn_l3 b).
 
+(* the kind of an L3 victim command is fixed when it is issued (msi.evictL3ExtraCacheLine reads
+   l3Write then); a write-back into the victim line before the command runs makes it dirty *)
+Definition l3_evict_dirty_cmds (b : snap) : list flush_mark :=
+  flat_map (fun c => match c with (_, k, kind, _) =>
+    if Z.eqb kind 3 && mem_line k (sn_l3dirty b) then [FM_l3_evict_dirty k] else [] end) (sn_cmds b).
+
 Definition flush_marks (a b : snap) : list flush_mark :=
-  l3_double_victims b ++ l3_stale_lines b ++ orphan_cmds b ++
+  l3_double_victims b ++ l3_stale_lines b ++ l3_evict_dirty_cmds b ++ orphan_cmds b ++
   flat_map (fun i =>
     flat_map (fun k =>
       (if s_transfer a i k && negb (s_transfer b i k) && is_some (s_l1 b i k) && mstate_eqb (s_ms b i k) I
